@@ -19,13 +19,16 @@
         the real interpreter executes every input of every produced transaction.
     (2) the seller's output stays at the committed index            — [C20_seller_output_fixed(_2d)];
     (3) the ordinal goes to the buyer under FIFO numbering          — [C20_ordinal_fifo_*];
-    (4) the completed transaction pays the quoted fee                — [C20_flow_fee_enough_*] + [C20_estimate_to_final*];
+    (4) the completed transaction pays the quoted fee                — [C20_flow_fee_enough_*] + [C20_estimate_to_final*],
+        composed end to end, with hypotheses on the returned transaction only, in [C20_*_pays_fee]; NOTE the fee is
+        relative to the input values RECORDED in the counter-party's transaction, which Validate never compares
+        with the listed UTXO's value: [C20_listing_recorded_value_unchecked] (a finding);
     (5) Inscribe then ParseInscription is the identity              — [C20_inscription_roundtrip]. *)
 From Coq Require Import List NArith ZArith Bool.
 From Coq Require Import Strings.Byte.
 From GoBT Require Import lib.Bytes lib.VarInt model.Tx gen.Consts spec.FeeSpec model.Fees model.Change
   spec.DigestSpec model.SigHash model.SigHashWire proofs.SigHashProofs proofs.FeesProofs
-  spec.OrdSpec model.Ord proofs.OrdProofs.
+  spec.OrdSpec model.Ord proofs.OrdProofs proofs.AuditC20.
 From GoBT Require model.Push model.Inscription proofs.InscriptionProofs proofs.RangeProofs spec.PushSpec.
 From GoBT Require lib.Ripemd160 model.ScriptNum model.Interp model.CheckSig proofs.P2PKHProofs proofs.OrdAcceptProofs.
 Import ListNotations.
@@ -253,6 +256,115 @@ Theorem C20_estimate_to_final : forall signer T A q skip,
   is_fee_paid_enough A q = FOk true.
 Proof. exact estimate_to_final. Qed.
 Print Assumptions C20_estimate_to_final.
+
+(** clause 4 end to end, one theorem per flow, hypotheses on the RETURNED transaction [A] only: the signer's
+    scripts are no longer than the 107-byte dummy, [A] is well-formed, and no uint64 product of the fee computation
+    on [A] (with a dummy script per input) wraps.  Then IsFeePaidEnough(quote) holds of [A] itself. *)
+Theorem C20_listing_pays_fee : forall signer listed L us buyer dummy chg q A,
+  accept_listing signer listed L us buyer dummy chg q = Done A ->
+  signer_short signer -> wf_tx A ->
+  (forall sf df, q_std q = Some sf -> q_data q = Some df ->
+     size_bound A 0 * r_sat sf + size_bound A 0 * r_sat df < two64) ->
+  is_fee_paid_enough A q = FOk true.
+Proof. exact listing_pays_fee. Qed.
+Print Assumptions C20_listing_pays_fee.
+
+Theorem C20_listing_2d_pays_fee : forall signer listed L us buyer dummy chg q A,
+  accept_listing_2d signer listed L us buyer dummy chg q = Done A ->
+  signer_short signer -> wf_tx A ->
+  (forall sf df, q_std q = Some sf -> q_data q = Some df ->
+     size_bound A 0 * r_sat sf + size_bound A 0 * r_sat df < two64) ->
+  is_fee_paid_enough A q = FOk true.
+Proof. exact listing_2d_pays_fee. Qed.
+Print Assumptions C20_listing_2d_pays_fee.
+
+Theorem C20_bid_pays_fee : forall bidder seller bid otx ov us buyer dummy chg q dprev dpay P ou eq ss A,
+  make_bid bidder bid otx ov us buyer dummy chg q dprev dpay = Done P ->
+  accept_bid seller ou bid eq P ss = Done A -> wf_tx P -> bid < two64 ->
+  signer_short seller -> wf_tx A ->
+  (forall sf df, q_std eq = Some sf -> q_data eq = Some df ->
+     size_bound A 0 * r_sat sf + size_bound A 0 * r_sat df < two64) ->
+  is_fee_paid_enough A eq = FOk true.
+Proof. exact bid_pays_fee. Qed.
+Print Assumptions C20_bid_pays_fee.
+
+Theorem C20_bid_2d_pays_fee : forall bidder seller bid otx ov us buyer dummy chg q dprev dpay P prevs eq ss A,
+  make_bid_2d bidder bid otx ov us buyer dummy chg q dprev dpay = Done P ->
+  accept_bid_2d seller prevs bid eq P ss = Done A -> wf_tx P -> bid < two64 ->
+  signer_short seller -> wf_tx A ->
+  (forall sf df, q_std eq = Some sf -> q_data eq = Some df ->
+     size_bound A 0 * r_sat sf + size_bound A 0 * r_sat df < two64) ->
+  is_fee_paid_enough A eq = FOk true.
+Proof. exact bid_2d_pays_fee. Qed.
+Print Assumptions C20_bid_2d_pays_fee.
+
+(** the generic bridge behind the four *)
+Theorem C20_flow_pays_fee_gen : forall signer T A q,
+  estimate_is_fee_paid_enough T q = FOk true ->
+  tx_version A = tx_version T -> tx_outs A = tx_outs T -> tx_lock A = tx_lock T ->
+  Forall2 same_prev (tx_ins T) (tx_ins A) -> Forall2 (signed_by signer) (tx_ins T) (tx_ins A) ->
+  (forall k i i', nth_error (tx_ins T) k = Some i -> nth_error (tx_ins A) k = Some i' -> unsigned i = true \/ i' = i) ->
+  tx_ins T <> [] ->
+  signer_short signer -> wf_tx A ->
+  (forall sf df, q_std q = Some sf -> q_data q = Some df ->
+     size_bound A 0 * r_sat sf + size_bound A 0 * r_sat df < two64) ->
+  is_fee_paid_enough A q = FOk true.
+Proof. exact flow_pays_fee_gen. Qed.
+Print Assumptions C20_flow_pays_fee_gen.
+
+(** A FINDING about what "the fee" is: it is computed from the input values recorded in the counter-party's
+    transaction.  Validate compares the listed UTXO's txid and index with the listing's input, never its value:
+    a listing that records 1 000 000 satoshis for a 1-satoshi ordinal is accepted, the fee predicate holds on the
+    recorded value, and with the real values the outputs exceed the inputs.  (So "the seller's input carries the
+    listed UTXO's value" is FALSE of the flow; the model is faithful to ord/list.go here.) *)
+Theorem C20_listing_recorded_value_unchecked :
+  exists A seller_in,
+    accept_listing cx_signer (Some cx_listed) cx_listing cx_funding (cx_p2pkh x04) (cx_p2pkh x05) (cx_p2pkh x06) cx_quote = Done A /\
+    nth_error (tx_ins A) 1 = Some seller_in /\ in_sats seller_in <> u_sats cx_listed /\
+    is_fee_paid_enough A cx_quote = FOk true /\
+    1500 + u_sats cx_listed + 100 < total_out A.
+Proof. exact listing_recorded_value_unchecked. Qed.
+Print Assumptions C20_listing_recorded_value_unchecked.
+
+(** * Seller protection in the bid flows, against ANY partially signed bid (not only one MakeBid produced):
+    the accepted transaction pays the bid to the seller's script at index 1 (two dummies: 2); every other output,
+    the version, the locktime and every input's outpoint and sequence number are the bidder's *)
+Theorem C20_accept_bid_seller_paid : forall signer ou bid eq P ss A,
+  accept_bid signer ou bid eq P ss = Done A -> wf_tx P -> bid < two64 ->
+  nth_error (tx_outs A) 1 = Some (mkOutput bid ss) /\
+  (forall j, j <> 1%nat -> nth_error (tx_outs A) j = nth_error (tx_outs P) j) /\
+  length (tx_outs A) = length (tx_outs P) /\
+  tx_version A = tx_version P /\ tx_lock A = tx_lock P /\
+  map in_txid (tx_ins A) = map in_txid (tx_ins P) /\ map in_vout (tx_ins A) = map in_vout (tx_ins P) /\
+  map in_seq (tx_ins A) = map in_seq (tx_ins P).
+Proof. exact accept_bid_seller_paid. Qed.
+Print Assumptions C20_accept_bid_seller_paid.
+
+Theorem C20_accept_bid_2d_seller_paid : forall signer prevs bid eq P ss A,
+  accept_bid_2d signer prevs bid eq P ss = Done A -> wf_tx P -> bid < two64 ->
+  nth_error (tx_outs A) 2 = Some (mkOutput bid ss) /\
+  (forall j, j <> 2%nat -> nth_error (tx_outs A) j = nth_error (tx_outs P) j) /\
+  length (tx_outs A) = length (tx_outs P) /\
+  tx_version A = tx_version P /\ tx_lock A = tx_lock P /\
+  map in_txid (tx_ins A) = map in_txid (tx_ins P) /\ map in_vout (tx_ins A) = map in_vout (tx_ins P) /\
+  map in_seq (tx_ins A) = map in_seq (tx_ins P).
+Proof. exact accept_bid_2d_seller_paid. Qed.
+Print Assumptions C20_accept_bid_2d_seller_paid.
+
+(** ... and the bidder's SINGLE|FORKID signatures survive the seller's edits (clause 1, digest half, bid flows):
+    for every input but the ordinal's, the specification's digest over the bid [P] and over the accepted
+    transaction [A] is the same, whatever script code and value it is taken with *)
+Theorem C20_bid_sigs_survive : forall signer ou bid eq P ss A j sc amount,
+  accept_bid signer ou bid eq P ss = Done A -> wf_tx P -> bid < two64 -> j <> 1%nat ->
+  forkid_preimage (wire_tx P) j sc amount SINGLE_FORKID = forkid_preimage (wire_tx A) j sc amount SINGLE_FORKID.
+Proof. exact bid_sigs_survive. Qed.
+Print Assumptions C20_bid_sigs_survive.
+
+Theorem C20_bid_2d_sigs_survive : forall signer prevs bid eq P ss A j sc amount,
+  accept_bid_2d signer prevs bid eq P ss = Done A -> wf_tx P -> bid < two64 -> j <> 2%nat ->
+  forkid_preimage (wire_tx P) j sc amount SINGLE_FORKID = forkid_preimage (wire_tx A) j sc amount SINGLE_FORKID.
+Proof. exact bid_2d_sigs_survive. Qed.
+Print Assumptions C20_bid_2d_sigs_survive.
 
 (** * Interpreter acceptance of the seller's re-indexed input (clause 1, partial — see the header) *)
 Section Acceptance.
